@@ -463,6 +463,9 @@ class SignatureV4(Signature):
 
     def parse(self, packet):
         super(Signature, self).parse(packet)
+        # octets in the buffer that come after this packet (the version octet has been read)
+        following = len(packet) - (self.header.length - 1)
+
         self.sigtype = packet[0]
         del packet[0]
 
@@ -477,7 +480,14 @@ class SignatureV4(Signature):
         self.hash2 = packet[:2]
         del packet[:2]
 
-        self.signature.parse(packet)
+        if isinstance(self.signature, OpaqueSignature):
+            # no field parser for this algorithm: its part of the packet is kept as it is - that part only, not what follows the packet
+            siglen = len(packet) - following
+            self.signature.parse(packet[:siglen])
+            del packet[:siglen]
+
+        else:
+            self.signature.parse(packet)
 
 
 class SKESessionKey(VersionedPacket):
